@@ -41,6 +41,10 @@ type Plan struct {
 	Seed  uint64 `json:"seed"`
 	Run   uint64 `json:"run"`
 	Steps []Step `json:"steps"`
+	// BurnIDs goroutines are created and finished before the plan starts, so
+	// that the goroutine ids of the plan (and the "in goroutine N" of their
+	// creators) have more digits.
+	BurnIDs int `json:"burn_ids,omitempty"`
 }
 
 var kinds = []string{"recv", "send", "select2", "selecttimer", "sleep", "wg", "cond", "nilrecv", "nilsend", "selectnone"}
@@ -84,6 +88,26 @@ func genQuery(r *core.Rng) (method, query string, valid bool) {
 // GenPlan draws a churn plan.
 func GenPlan(r *core.Rng, seed, run uint64) *Plan {
 	p := &Plan{Seed: seed, Run: run}
+	if r.Chance(0.3) {
+		p.BurnIDs = []int{300, 1200, 12000, 70000}[r.Intn(4)]
+	}
+	if r.Chance(0.06) {
+		// "many requests" flavour: a long series of requests against one small
+		// population (state kept from one request to the next shows up here)
+		for i, k := 0, r.Range(2, 8); i < k; i++ {
+			p.Steps = append(p.Steps, Step{Op: "spawn", Kind: kinds[r.Intn(7)], Creator: r.Intn(3)})
+		}
+		for i, k := 0, r.Range(12, 40); i < k; i++ {
+			m, q, _ := genQuery(r)
+			if r.Chance(0.3) {
+				// bias towards rejected requests
+				q = "similarity=" + badSim[r.Intn(len(badSim)-1)]
+				m = "GET"
+			}
+			p.Steps = append(p.Steps, Step{Op: "request", Method: m, Query: q})
+		}
+		return p
+	}
 	if r.Chance(0.04) {
 		// "big" flavour: a dump between 1 and 2 MiB, so that the handler's
 		// grow-and-retry capture has to reach its last doubling
@@ -141,6 +165,20 @@ func GenPlan(r *core.Rng, seed, run uint64) *Plan {
 		case k < 12 && spawned > 0:
 			p.Steps = append(p.Steps, Step{Op: "release", Target: r.Intn(spawned)})
 		case k < 13:
+			if r.Chance(0.4) {
+				// a goroutine that has been created but has not run yet when the
+				// next request/snapshot looks at the process
+				m, q, _ := genQuery(r)
+				p.Steps = append(p.Steps, Step{Op: "spawnfresh", Kind: "recv", Creator: r.Intn(3)})
+				if r.Chance(0.5) {
+					p.Steps = append(p.Steps, Step{Op: "request", Method: m, Query: q})
+				} else {
+					p.Steps = append(p.Steps, Step{Op: "snapshot", Full: r.Chance(0.5)})
+				}
+				live++
+				spawned++
+				break
+			}
 			p.Steps = append(p.Steps, Step{Op: "advance", Minutes: r.Range(1, 300)})
 		case k < 16:
 			p.Steps = append(p.Steps, Step{Op: "snapshot", Full: r.Chance(0.3)})
@@ -182,6 +220,7 @@ type entry struct {
 	cond    *sync.Cond
 	flag    bool
 	started chan struct{}
+	fresh   bool // created, not yet observed running: its state and frames are not known
 }
 
 var reSelfID = regexp.MustCompile(`^goroutine (\d+) `)
@@ -420,6 +459,11 @@ func (c *checker) checkLibrary(dump []byte, reg []*entry, opts *stack.Opts) {
 			continue
 		}
 		nlive++
+		if e.fresh {
+			// only the count/ids/header clauses apply to it
+			c.probes["fresh-goroutine-in-dump"]++
+			continue
+		}
 		if g == nil {
 			c.fail("registry", "registered goroutine %d (%s, depth %d) is missing from the snapshot", e.id, e.kind, e.depth)
 			continue
